@@ -1200,36 +1200,33 @@ func (w *World) M15(rec *ScanRecord) []Violation {
 func (w *World) M19(rec *ScanRecord) []Violation {
 	var out []Violation
 	for _, gr := range rec.Groups {
-		// batches: consecutive terminate calls followed by node deletes
-		termOK := map[string]bool{} // node name -> accepted termination in the current batch
-		batchFailed := false
-		inDeletes := false
+		// a batch = the terminate calls of one DeleteNodes call (closed by its marker); node
+		// deletions that follow belong to that batch
+		accepted := map[string]bool{} // node name -> termination accepted in the batch being built
+		var lastOK map[string]bool     // accepted terminations of the last closed batch
+		lastBatchOK := false
 		for _, e := range gr.Seg {
 			switch e.Kind {
 			case sim.ATerminateInASG:
-				if inDeletes {
-					termOK, batchFailed, inDeletes = map[string]bool{}, false, false
-				}
 				if e.Flag == nil || !*e.Flag {
 					out = append(out, viol("C19", "terminate-without-decrement", "group %d: %s", gr.G, e.String()))
 				}
 				if e.OK() {
 					if n := rec.NodeForInstance(e.IDs[0]); n != nil {
-						termOK[n.Name] = true
+						accepted[n.Name] = true
 					}
 					if e.PreDesired-1 < e.PreMin {
 						out = append(out, viol("C19", "terminate-below-asg-min", "group %d: %s", gr.G, e.String()))
 					}
-				} else {
-					batchFailed = true
 				}
+			case sim.MDeleteNodes:
+				lastOK, lastBatchOK = accepted, e.OK()
+				accepted = map[string]bool{}
 			case sim.KDelete:
-				inDeletes = true
-				if !termOK[e.Node] {
+				if !lastOK[e.Node] {
 					out = append(out, viol("C19", "k8s-delete-without-cloud-terminate", "group %d: %s was not preceded by an accepted termination of its instance", gr.G, e.String()))
-				}
-				if batchFailed {
-					out = append(out, viol("C19", "k8s-delete-after-failed-batch", "group %d: %s follows a failed termination in the same batch", gr.G, e.String()))
+				} else if !lastBatchOK {
+					out = append(out, viol("C19", "k8s-delete-after-failed-batch", "group %d: %s follows a removal request that the cloud provider did not accept as a whole", gr.G, e.String()))
 				}
 			}
 		}
